@@ -181,7 +181,7 @@ class C06(Prop):
                 continue
             before = impl_out["progs"][m["step"]]["prog"]
             reqs.append({"fn": "c06.loop", "args": {"path": m["path"], "j": m["j"], "fresh": before["nvars"] + 1000, "body": before["body"],
-                                                    "fields": before["fields"]}})
+                                                    "fields": before["fields"], "carried": bool(m.get("carried"))}})
         for m in impl_out.get("dces", []):
             if "skip" in m:
                 continue
@@ -247,9 +247,10 @@ class C06(Prop):
             k += 1
             if m.get("carried"):
                 real_after = impl_out["progs"][m["step"] + 1]["prog"]["body"]
-                good = ("ok" in a and a["ok"]["after"] is not None and a["ok"]["covered"]
-                        and ac.canon_ast(a["ok"]["after"]) == ac.canon_ast(real_after))
-                self.loop_cov["carried_loop_steps_certified" if good else "carried_loop_steps_oracle_only"] += 1
+                same = "ok" in a and a["ok"]["after"] is not None and ac.canon_ast(a["ok"]["after"]) == ac.canon_ast(real_after)
+                good = same and a["ok"]["covered"]
+                self.loop_cov["carried_loop_steps_certified" if good else
+                              ("carried_loop_steps_reproduced_not_certified:" + a["ok"]["why"] if same else "carried_loop_steps_oracle_only")] += 1
                 continue
             if "err" in a:
                 return {"model_error": a["err"]}
